@@ -49,7 +49,7 @@ def main():
     npr = np.random.default_rng(a.seed + 77)
     res = O.Result("pass classes x random circuits (name-level summaries); presets and random target gate sets x "
                    "random circuits over the full vocabulary incl. 3-qubit UnitaryMatrix")
-    reps = 25 if a.tier == "quick" else 300
+    reps = 60 if a.tier == "quick" else 300
     pj = os.path.join(a.work, "pipes.json")
     js = json.load(open(pj)) if os.path.exists(pj) else None
     # (1) stage summaries
